@@ -567,47 +567,57 @@ def r5_file(repo, report):
     got = {k: v for k, v in tbl.items() if k != "other"}
     report.ob("C18.R5", "anchoring characters of file notation", got == want, facts={k: sorted(v) for k, v in tbl.items()}, expected={k: sorted(v) for k, v in want.items()}, loc=repo.loc(f2), cases=len(rows),
               why="" if got == want else "the anchoring character is not re-attached at the end named by the notation")
-    # the anchoring characters are attached to the SEQUENCE of a record: a record may carry its own ';parameters'
-    # (documented), so prefix + record + suffix would put the '$' behind the last parameter value
+    # Where the anchoring characters end up in the specification built for a record.  A record may carry parameters
+    # ("ACGT;e=0.2") and may be a linked adapter ("ACGT;e=0.2...TGCA;o=3").  The specification is a closed string function
+    # of (record text, prefix, suffix): it is folded for one record of every shape and compared with the documented
+    # placement - '^' in front of the record, '$' directly behind the LAST sequence (before that part's parameters).
+    from .. import constfold
     f2n = repo.func("parser", "make_adapters_from_one_specification")
     recs = [n for n in ast.walk(f2n) if isinstance(n, ast.For) and isinstance(n.iter, ast.Call) and chain(n.iter.func) == "read_adapters_fasta"]
-    okp = None
-    factsp = {}
-    if len(recs) == 1 and isinstance(recs[0].target, ast.Tuple) and len(recs[0].target.elts) == 2 and isinstance(recs[0].target.elts[1], ast.Name):
+    okp, factsp, whyp = None, {}, ""
+    pre = [chain(n.targets[0]) for n in ast.walk(f2n) if isinstance(n, ast.Assign) and isinstance(n.value, ast.Constant) and n.value.value == "^" and chain(n.targets[0])]
+    suf = [chain(n.targets[0]) for n in ast.walk(f2n) if isinstance(n, ast.Assign) and isinstance(n.value, ast.Constant) and n.value.value == "$" and chain(n.targets[0])]
+    if len(recs) == 1 and isinstance(recs[0].target, ast.Tuple) and len(recs[0].target.elts) == 2 and isinstance(recs[0].target.elts[1], ast.Name) and len(set(pre)) == 1 and len(set(suf)) == 1:
         rec = recs[0].target.elts[1].id
         mk = [x for x in calls(recs[0]) if chain(x.func) == "make_adapter" and x.args]
         if len(mk) == 1:
-            ops = []
+            setup = [st for st in recs[0].body if isinstance(st, ast.Assign)]
 
-            def flat(e):
-                if isinstance(e, ast.BinOp) and isinstance(e.op, ast.Add):
-                    flat(e.left)
-                    flat(e.right)
-                else:
-                    ops.append(e)
+            def built(record, p_, s_):
+                env = {rec: record, pre[0]: p_, suf[0]: s_}
+                for st in setup:
+                    val = constfold.fold(st.value, env)
+                    tgt = st.targets[0]
+                    if isinstance(tgt, ast.Name):
+                        env[tgt.id] = val
+                    elif isinstance(tgt, ast.Tuple) and all(isinstance(e, ast.Name) for e in tgt.elts) and len(tgt.elts) == len(val):
+                        for e, v_ in zip(tgt.elts, val):
+                            env[e.id] = v_
+                    else:
+                        raise constfold.NotConstant("assignment target")
+                return constfold.fold(mk[0].args[0], env)
 
-            flat(mk[0].args[0])
-            names = [src(o) for o in ops]
-            # names split off the record with .partition(';') / .split(';', 1)
-            parts = {}
-            for n in ast.walk(recs[0]):
-                if isinstance(n, ast.Assign) and isinstance(n.value, ast.Call) and isinstance(n.value.func, ast.Attribute) and n.value.func.attr in ("partition", "split") and chain(n.value.func.value) == rec \
-                        and n.value.args and isinstance(n.value.args[0], ast.Constant) and n.value.args[0].value == ";" and isinstance(n.targets[0], ast.Tuple):
-                    for i_, e in enumerate(n.targets[0].elts):
-                        if isinstance(e, ast.Name):
-                            parts[e.id] = i_
-            factsp = {"first_argument": names, "record_split_at_semicolon": sorted(parts, key=parts.get)}
-            suffix_pos = [i_ for i_, o in enumerate(ops) if isinstance(o, ast.Name) and "suffix" in o.id]
-            raw_pos = [i_ for i_, o in enumerate(ops) if isinstance(o, ast.Name) and o.id == rec]
-            seq_pos = [i_ for i_, o in enumerate(ops) if isinstance(o, ast.Name) and parts.get(o.id) == 0]
-            if suffix_pos and raw_pos and not seq_pos:
-                okp = False  # suffix attached to the whole record text
-            elif suffix_pos and seq_pos and suffix_pos[0] == seq_pos[0] + 1:
-                prefix_pos = [i_ for i_, o in enumerate(ops) if isinstance(o, ast.Name) and "prefix" in o.id]
-                okp = bool(prefix_pos) and prefix_pos[0] == seq_pos[0] - 1
-    report.ob("C18.R5", "anchoring suffix is attached to the record's sequence, before its own parameters", okp, facts=factsp,
-              expected="prefix + <sequence part of the record> + suffix + ';' + <the record's parameters>", loc=repo.loc(f2n),
-              why="" if okp is not False else "with file$: a record such as 'ACGT;e=0.2' becomes 'ACGT;e=0.2$': the '$' ends up in the parameter value (\"could not convert string to float: '0.2$'\") and the record is not read")
+            def documented(record, p_, s_):
+                head, dots, last = record.rpartition("...")
+                seq, semi, par = last.partition(";")
+                return p_ + head + dots + seq + s_ + semi + par
+
+            shapes = ["ACGT", "ACGT;e=0.2", "ACGT;e=0.2;o=3", "ACGT...TGCA", "ACGT;e=0.2...TGCA", "ACGT...TGCA;o=3", "ACGT;e=0.2...TGCA;o=3"]
+            wrong = []
+            try:
+                for record in shapes:
+                    for p_, s_ in (("", ""), ("^", ""), ("", "$")):
+                        g_ = built(record, p_, s_)
+                        if g_ != documented(record, p_, s_):
+                            wrong.append({"record": record, "anchor": p_ or s_, "specification_built": g_, "documented": documented(record, p_, s_)})
+                okp = not wrong
+                factsp = {"record_shapes": len(shapes), "wrong": wrong[:2]}
+                if wrong:
+                    whyp = f"for the record {wrong[0]['record']!r} with anchor {wrong[0]['anchor']!r} the specification becomes {wrong[0]['specification_built']!r} instead of {wrong[0]['documented']!r}: the anchoring character lands in a parameter value or on the wrong part"
+            except constfold.NotConstant as e_:
+                factsp = {"not_foldable": str(e_)}
+    report.ob("C18.R5", "anchoring characters are placed at the record's sequences, not in its parameters", okp, facts=factsp, cases=21,
+              expected="'^' + record for ^file:; for file$: the '$' directly behind the sequence of the last '...'-part, before that part's ';parameters'", loc=repo.loc(f2n), why=whyp)
     raf = _roles_read_adapters_fasta(repo)
     from ..repo import expand, nsrc
     ys = [nsrc(src(expand(raf, n.value))) for n in ast.walk(raf) if isinstance(n, ast.Yield)]
